@@ -115,9 +115,11 @@ def gen_edits(rng):
     for _ in range(rng.choice([1, 1, 2])):
         ops = []
         for _ in range(rng.randint(1, 3)):
-            k = rng.choice(['scale', 'set', 'fill', 'add', 'vertex', 'vertex', 'normal'])
+            k = rng.choice(['scale', 'set', 'fill', 'add', 'vertex', 'vertex', 'normal',
+                            'scene_none', 'scene_none', 'scene_set', 'asset_title', 'light_color', 'camera_znear',
+                            'effect_float', 'material_name', 'node_name', 'node_transform', 'double_sided'])
             op = {'op': k, 'geom': rng.randrange(8), 'src': rng.randrange(8), 'prim': rng.randrange(8),
-                  'row': rng.randrange(64), 'col': rng.randrange(8)}
+                  'row': rng.randrange(64), 'col': rng.randrange(8), 'i': rng.randrange(8), 'pos': rng.randrange(8)}
             if k == 'scale':
                 op['k'] = rng.choice([2.0, 0.5, -1.0, 3.0, 1.0000001, c01gen.dec7(rng) or 2.0])
             elif k == 'add':
@@ -126,8 +128,19 @@ def gen_edits(rng):
                 op['v'] = c01gen.any_double(rng)
             elif k == 'fill':
                 op['values'] = [c01gen.any_double(rng) for _ in range(rng.randint(1, 5))]
-            else:
+            elif k in ('vertex', 'normal'):
                 op['v'] = [c01gen.any_double(rng) for _ in range(3)]
+            elif k == 'node_transform':
+                op['v'] = [c01gen.dec7(rng) for _ in range(3)]
+            elif k in ('asset_title', 'material_name', 'node_name'):
+                op['v'] = rng.choice(c01gen.WORDS) + ' edited'
+            elif k == 'light_color':
+                op['v'] = c01gen.color(rng, 3)
+            elif k == 'camera_znear':
+                op['v'] = c01gen.pos7(rng, 1e-3, 5.0)
+            elif k == 'effect_float':
+                op['prop'] = rng.choice(['shininess', 'reflectivity', 'transparency', 'index_of_refraction'])
+                op['v'] = c01gen.pos7(rng, 1e-3, 100.0)
             ops.append(op)
         rounds.append(ops)
     return rounds
@@ -140,7 +153,7 @@ def gen_prog(rng, i):
         prog['_derive'] = 'ns15'
     elif r < 0.24:
         prog['_derive'] = 'noscene'
-    if prog['geometries'] and prog.get('_derive') != 'ns15' and rng.random() < 0.3:
+    if prog.get('_derive') != 'ns15' and rng.random() < 0.35:
         prog['_edits'] = gen_edits(rng)
     return prog
 
